@@ -10,6 +10,7 @@
 #include <stdlib.h>
 #include <string.h>
 #include <sys/stat.h>
+#include <sys/syscall.h>
 #include <sys/types.h>
 #include <time.h>
 #include <unistd.h>
@@ -19,33 +20,53 @@
 struct sim_cfg sim_cfg;
 
 /* ------------------------------------------------------------------ history */
-static char *hist;
-static size_t hist_len, hist_cap;
+/* One log buffer per thread (+1 for the main thread), merged by sequence
+ * number at exit: the harness must not share memory through intercepted libc
+ * functions, or ThreadSanitizer would report the harness instead of the library. */
+struct logbuf {
+	char *p;
+	size_t len, cap;
+};
+static struct logbuf logs[SIM_MAX_THREADS + 1];
+static unsigned long logseq;
 static const char *hist_path;
 static long step;             /* next step number */
 static int cur_op[SIM_MAX_THREADS];
+
+static void
+bytecopy(char *dst, const char *src, size_t n)
+{
+	/* not memcpy(): see above */
+	volatile char *d = dst;
+	for (size_t i = 0; i < n; i++)
+		d[i] = src[i];
+}
 
 void
 sim_log(const char *fmt, ...)
 {
 	char line[4608];
+	int th = sim_self();
+	struct logbuf *lb = &logs[th < 0 ? SIM_MAX_THREADS : th];
+	int m = snprintf(line, 32, "%lu ", logseq++);
 	va_list ap;
 	va_start(ap, fmt);
-	int n = vsnprintf(line, sizeof(line) - 2, fmt, ap);
+	int n = vsnprintf(line + m, sizeof(line) - 2 - (size_t) m, fmt, ap);
 	va_end(ap);
 	if (n < 0)
 		return;
+	n += m;
 	if ((size_t) n > sizeof(line) - 2)
 		n = (int) sizeof(line) - 2;
 	line[n++] = '\n';
-	if (hist_len + (size_t) n + 1 > hist_cap) {
-		hist_cap = hist_cap ? hist_cap * 2 : (1 << 16);
-		while (hist_cap < hist_len + (size_t) n + 1)
-			hist_cap *= 2;
-		hist = realloc(hist, hist_cap);
+	if (lb->len + (size_t) n + 1 > lb->cap) {
+		lb->cap = lb->cap ? lb->cap * 2 : (1 << 16);
+		while (lb->cap < lb->len + (size_t) n + 1)
+			lb->cap *= 2;
+		lb->p = realloc(lb->p, lb->cap);
 	}
-	memcpy(hist + hist_len, line, (size_t) n);
-	hist_len += (size_t) n;
+	bytecopy(lb->p + lb->len, line, (size_t) n);
+	lb->len += (size_t) n;
 }
 
 extern ssize_t __real_write(int fd, const void *buf, size_t n);
@@ -57,16 +78,43 @@ sim_finish(const char *how, int code)
 {
 	sim_dump_schedule();
 	sim_log("X %s step=%ld th=%d", how, step, sim_self());
-	int fd = __real_open(hist_path, O_WRONLY | O_CREAT | O_TRUNC, 0644);
+	/* raw system calls: the sanitizer runtimes must not look at harness buffers */
+	int fd = (int) syscall(SYS_openat, AT_FDCWD, hist_path, O_WRONLY | O_CREAT | O_TRUNC, 0644);
 	if (fd >= 0) {
-		size_t off = 0;
-		while (off < hist_len) {
-			ssize_t w = __real_write(fd, hist + off, hist_len - off);
-			if (w <= 0)
+		/* k-way merge by sequence number */
+		size_t pos[SIM_MAX_THREADS + 1] = {0};
+		for (;;) {
+			int best = -1;
+			unsigned long bestseq = 0;
+			for (int i = 0; i <= SIM_MAX_THREADS; i++) {
+				if (pos[i] >= logs[i].len)
+					continue;
+				unsigned long sq = strtoul(logs[i].p + pos[i], NULL, 10);
+				if (best < 0 || sq < bestseq) {
+					best = i;
+					bestseq = sq;
+				}
+			}
+			if (best < 0)
 				break;
-			off += (size_t) w;
+			char *start = logs[best].p + pos[best];
+			char *nl = start;
+			while (*nl != '\n')
+				nl++;
+			char *sp = start;
+			while (*sp != ' ')
+				sp++;
+			sp++;
+			size_t off = 0, len = (size_t) (nl - sp) + 1;
+			while (off < len) {
+				ssize_t w = (ssize_t) syscall(SYS_write, fd, sp + off, len - off);
+				if (w <= 0)
+					break;
+				off += (size_t) w;
+			}
+			pos[best] = (size_t) (nl - logs[best].p) + 1;
 		}
-		__real_close(fd);
+		syscall(SYS_close, fd);
 	}
 	fflush(stderr);
 	_exit(code);
@@ -119,7 +167,19 @@ fault_at(long s)
 
 /* fd -> path (for attribution of writes) */
 #define MAXFD 256
+static char fdpath_buf[MAXFD][512];
 static char *fdpath[MAXFD];
+
+static void
+set_fdpath(int fd, const char *path)
+{
+	size_t n = 0;
+	while (path[n] && n < 511)
+		n++;
+	bytecopy(fdpath_buf[fd], path, n);
+	fdpath_buf[fd][n] = '\0';
+	fdpath[fd] = fdpath_buf[fd];
+}
 
 static const char *
 rel(const char *p)
@@ -298,10 +358,8 @@ __wrap_open(const char *path, int flags, ...)
 	} else {
 		ret = __real_open(path, flags, mode);
 		e = ret < 0 ? errno : 0;
-		if (ret >= 0 && ret < MAXFD) {
-			free(fdpath[ret]);
-			fdpath[ret] = strdup(path);
-		}
+		if (ret >= 0 && ret < MAXFD)
+			set_fdpath(ret, path);
 	}
 	end_step(k, "open", path, flags, ret, e);
 	errno = e;
@@ -527,10 +585,8 @@ __wrap_fopen(const char *path, const char *mode)
 		errno = e;
 		return NULL;
 	}
-	if (fd < MAXFD) {
-		free(fdpath[fd]);
-		fdpath[fd] = strdup(path);
-	}
+	if (fd < MAXFD)
+		set_fdpath(fd, path);
 	struct cookie *ck = calloc(1, sizeof(*ck));
 	ck->fd = fd;
 	ck->path = strdup(path);
